@@ -78,6 +78,8 @@ func checkpointScenario(c *sup.Ctx, r *rng.R, props []string) {
 	c.Count("stops_while_writers_active", int64(res.StopsWhileBusy))
 	c.Count("events_delivered", int64(res.Delivered))
 	c.Count("checkpoints_read", int64(len(res.Checkpoints)))
+	c.Count("recreations_while_feed_stopped", int64(res.OfflineRecreations))
+	c.Count("final_versions_checked", int64(res.FinalVersionsChecked))
 	c.Cell(fmt.Sprintf("checkpoint|writers=%d|restarts=%d|busy=%d|%s", writers, restarts, min(int64(res.StopsWhileBusy), 4), ifStr(disk, "disk", "mem")))
 	if msg != "" {
 		kind, text := splitKind(msg)
